@@ -97,13 +97,17 @@ def weights(rng, n, maxratio=45):
     return w
 
 
-def curve(rng, p=None, nint=None, dim=None, rational=None, itv=None, pmax=4, nintmax=4, maxmult=None, big=False, wratio=45, want_zero=None):
-    """dict(U, P, W) with exact numbers"""
+def curve(rng, p=None, nint=None, dim=None, rational=None, itv=None, pmax=4, nintmax=4, maxmult=None, big=False, wratio=45, want_zero=None, magnitudes=False):
+    """dict(U, P, W) with exact numbers; magnitudes=True: 8% of the curves get control values of size 1e-9 or 1e6"""
     U = kv(rng, p, nint, itv, pmax, nintmax, maxmult, want_zero)
     pp, n = ref.wellformed(U)
     dim = rng.choice([0, 0, 2, 3]) if dim is None else dim
     rational = (rng.random() < 0.4) if rational is None else rational
-    return {"U": U, "P": points(rng, n, dim, big), "W": weights(rng, n, wratio) if rational else None}
+    P = points(rng, n, dim, big)
+    if magnitudes and rng.random() < 0.08:
+        sc = rng.choice([F(1, 10**9), F(10**6)])
+        P = [[c * sc for c in pt] if isinstance(pt, list) else pt * sc for pt in P]
+    return {"U": U, "P": P, "W": weights(rng, n, wratio) if rational else None}
 
 
 def probe_params(U, per_span=None):
